@@ -523,6 +523,77 @@ def real_kh(path, name):
 
 
 # =====================================================================================================
+def gen_histories(rng, names, npairs_from=4, nrandom=2):
+    """lookup histories over the given names: every ordered pair (also a name twice) over a few of them, plus
+    random histories of length 3-4 with repeats"""
+    names = list(dict.fromkeys(names))
+    if not names:
+        return []
+    few = names if len(names) <= npairs_from else rng.sample(names, npairs_from)
+    hist = [[a, b] for a in few for b in few]
+    for _ in range(nrandom):
+        hist.append([rng.choice(names) for _ in range(rng.choice([3, 4]))])
+    return hist
+
+
+def cfg_history_real(path, hist, attrs, via_factory=False):
+    """answers of successive lookups on ONE SSHConfig object (or on the object(s) ssh_config_factory hands out)"""
+    from scrapli.ssh_config import SSHConfig, ssh_config_factory
+    out = []
+    try:
+        if via_factory:
+            objs = [ssh_config_factory(path), ssh_config_factory(path)]
+            if objs[0] is not objs[1]:
+                return [("exc", "ssh_config_factory returned two different objects for one path")] * len(hist)
+        else:
+            objs = [SSHConfig(path)]
+    except Exception as e:  # noqa
+        return [("exc", type(e).__name__ + ": " + str(e))] * len(hist)
+    try:
+        for i, nm in enumerate(hist):
+            try:
+                out.append(("ok", host_obs(objs[i % len(objs)].lookup(nm), attrs)))
+            except Exception as e:  # noqa
+                out.append(("exc", type(e).__name__ + ": " + str(e)))
+    finally:
+        if via_factory:
+            SSHConfig._config_files.pop(path, None)
+    return out
+
+
+def kh_history_real(path, hist):
+    from scrapli.ssh_config import SSHKnownHosts
+    try:
+        obj = SSHKnownHosts(path)
+    except Exception as e:  # noqa
+        return [("exc", type(e).__name__)] * len(hist)
+    out = []
+    for nm in hist:
+        try:
+            r = obj.lookup(nm)
+            out.append(("ok", (r["key_type"], r["public_key"]) if r else None))
+        except Exception as e:  # noqa
+            out.append(("exc", type(e).__name__))
+    return out
+
+
+def kh_history_model_line(lines, hist):
+    ls, hm = [], []
+    for l in lines:
+        if l["kind"] in ("plain", "list", "hashed"):
+            ls.append(f"{hx(l['field'])}/{hx(l['kt'])}/{hx(l['pk'])}")
+        if l["kind"] == "hashed":
+            parts = l["field"].split("|")
+            if len(parts) == 4:
+                for nm in dict.fromkeys(hist):
+                    try:
+                        r = "t" if kh_hash(base64.b64decode(parts[2]), nm) == base64.b64decode(parts[3]) else "f"
+                    except Exception:
+                        r = "x"
+                    hm.append(f"{hx(parts[2])}/{hx(parts[3])}/{hx(nm)}/{r}")
+    return f"HK {','.join(hx(n) for n in hist)} {';'.join(ls) or '.'} {';'.join(hm) or '.'}"
+
+
 def fallback_data():
     """used only when the translator cannot translate: the same values read from the imported module"""
     from scrapli.ssh_config import HOST_ATTRS, Host, SSHConfig
@@ -621,6 +692,7 @@ def check_case(ck, tmp, D, blocks, name, text, meta_live, stats, plain):
         entries = list(got_dict.values())
     else:
         return None, real, indom, metacase
+    stats["_entries"] = entries
     return model_line(name, entries), real, indom, metacase
 
 
@@ -751,8 +823,15 @@ def _run_cases(ck, tier, D, meta_live, stats, tmp):
             cases.append((bl, nm, text, False, (tag,)))
     reqs, pend = [], []
     spec_reqs, spec_pend = [], []
+    files = OrderedDict()    # text -> dict(blocks, fresh={name: real}, entries, indom)
     for bl, nm, text, plain, tags in cases:
+        stats.pop("_entries", None)
         req, real, indom, metacase = check_case(ck, tmp, D, bl, nm, text, meta_live, stats, plain)
+        fi = files.setdefault(text, {"blocks": bl, "fresh": {}, "entries": None, "indom": True, "tags": tags})
+        fi["fresh"][nm] = real
+        fi["indom"] = fi["indom"] and indom and not metacase
+        if stats.get("_entries") is not None:
+            fi["entries"] = stats["_entries"]
         nontriv = any(ps != ["*"] for ps, _ in bl) and nm not in [" ".join(ps) for ps, _ in bl]
         prim_s, how, _ = spec_lookup(bl, nm)
         ck.case((tuple((tuple(p), tuple(sorted(o.items()))) for p, o in bl), nm, text), nontrivial=nontriv,
@@ -764,6 +843,30 @@ def _run_cases(ck, tier, D, meta_live, stats, tmp):
             if indom:
                 spec_reqs.append("S" + model_line(nm, entries_of(expected_parse(bl), attrs, D["defaults"]))[1:])
                 spec_pend.append((bl, nm))
+    stats.pop("_entries", None)
+    # ---- lookup HISTORIES on one SSHConfig object / through ssh_config_factory: a lookup is a function of (file, name)
+    hist_pend = []   # (kind, request index, real answers, case)
+    for fidx, (text, fi) in enumerate(files.items()):
+        if "exhaustive" in fi["tags"] and fidx % (4 if tier == "quick" else 1):
+            continue
+        path = tmp.write(text)
+        hists = gen_histories(rng, list(fi["fresh"]), npairs_from=3 if tier == "quick" else 4, nrandom=2)
+        for hi, hist in enumerate(hists):
+            via = hi % 3 == 2
+            got = cfg_history_real(path, hist, attrs, via_factory=via)
+            ck.case(("cfg-history", text, tuple(hist), via), nontrivial=len(set(hist)) > 1,
+                    sample={"text": text[:200], "history": hist, "answers": [str(g)[:80] for g in got]},
+                    tags=("history", "history=cfg" + ("-factory" if via else ""), f"hist-len={len(hist)}"))
+            for i, (nm, g) in enumerate(zip(hist, got)):
+                if g != fi["fresh"][nm]:
+                    ck.violation({"kind": "history", "text": text, "blocks": [[p, o] for p, o in fi["blocks"]], "history": hist,
+                                  "index": i, "name": nm, "via_factory": via, "got": list(g), "fresh": list(fi["fresh"][nm])},
+                                 f"SSHConfig lookup({nm!r}) after the lookups {hist[:i]!r} on the same object"
+                                 f"{' (from ssh_config_factory)' if via else ''} = {g}, a fresh object answers {fi['fresh'][nm]}", matcher)
+                    break
+            if fi["entries"] is not None and fi["indom"] and hi >= len(hists) - 3:
+                hist_pend.append(("cfg", len(reqs), got, {"text": text, "history": hist}))
+                reqs.append(f"HL {','.join(hx(n) for n in hist)} {enc_entries(fi['entries'])}")
     # factory caching: same path -> same object; fresh path -> fresh parse
     from scrapli.ssh_config import SSHConfig, ssh_config_factory
     p1 = tmp.write("Host cached\n  User u1\n")
@@ -790,6 +893,7 @@ def _run_cases(ck, tier, D, meta_live, stats, tmp):
     for lines, nms in kh_cases:
         text = "".join(l["text"] + "\n" for l in lines)
         path = tmp.write(text)
+        kh_fresh = {}
         for nm in nms:
             real = real_kh(path, nm)
             want = kh_spec(lines, nm)
@@ -804,8 +908,26 @@ def _run_cases(ck, tier, D, meta_live, stats, tmp):
                 ck.violation(case, f"known_hosts lookup({nm!r}) = {real[1]}, recorded keys are {want}", matcher)
             elif not want and real[1] is not None:
                 ck.violation(case, f"known_hosts lookup({nm!r}) returned a key although no line records that host", matcher)
+            kh_pend.append((real, case, len(reqs)))
             reqs.append(kh_model_line(lines, nm))
-            kh_pend.append((real, case))
+            kh_fresh[nm] = real
+        # histories on ONE SSHKnownHosts object
+        hists = gen_histories(rng, list(kh_fresh), npairs_from=5, nrandom=3)
+        for hi, hist in enumerate(hists):
+            got = kh_history_real(path, hist)
+            ck.case(("kh-history", text, tuple(hist)), nontrivial=len(set(hist)) > 1 and bool(lines),
+                    sample={"known_hosts": text[:200], "history": hist, "answers": [str(g) for g in got]},
+                    tags=("history", "history=known_hosts", f"hist-len={len(hist)}"))
+            for i, (nm, g) in enumerate(zip(hist, got)):
+                if g != kh_fresh[nm]:
+                    ck.violation({"kind": "history", "known_hosts": text, "history": hist, "index": i, "name": nm,
+                                  "got": list(g), "fresh": list(kh_fresh[nm])},
+                                 f"SSHKnownHosts lookup({nm!r}) after the lookups {hist[:i]!r} on the same object = {g[1]}, "
+                                 f"a fresh object answers {kh_fresh[nm][1]}", matcher)
+                    break
+            if hi >= len(hists) - 4:
+                hist_pend.append(("kh", len(reqs), got, {"known_hosts": text, "history": hist}))
+                reqs.append(kh_history_model_line(lines, hist))
     # malformed hashed entries: advisory, model vs code on error-ness only
     adv = []
     for bad in ["|1|abc", "|1|a|b", "|1|YQ==|YQ==|x", "|1||"]:
@@ -823,14 +945,31 @@ def _run_cases(ck, tier, D, meta_live, stats, tmp):
     if mout is not None:
         for i, (real, indom, metacase, case) in enumerate(pend):
             compare(ck, reqs[i], mout[i], real, indom, metacase, case, stats)
-        off = len(pend)
-        for j, (real, case) in enumerate(kh_pend):
-            ml = mout[off + j].split(" ")
+        for real, case, ridx in kh_pend:
+            ml = mout[ridx].split(" ")
             m = ("exc", "") if ml[0] == "err" else ("ok", None if ml[1] == "none" else (unhx(ml[1]), unhx(ml[2])))
             if (m[0] == "exc") != (real[0] == "exc") or (m[0] == "ok" and m != real):
-                ck.disagree("SSHKnownHosts model vs real SSHKnownHosts", case, f"impl={real} model={mout[off + j]}")
+                ck.disagree("SSHKnownHosts model vs real SSHKnownHosts", case, f"impl={real} model={mout[ridx]}")
             else:
                 ck.traces_validated += 1
+        for kind, idx, got, case in hist_pend:
+            parts = mout[idx].split(" | ")
+            ok = len(parts) == len(got)
+            if ok:
+                for ml, g in zip(parts, got):
+                    if kind == "cfg":
+                        m = dec_model(ml)
+                        ok = ok and ((m[0] == "err") if g[0] == "exc" else m == g)
+                    else:
+                        f = ml.split(" ")
+                        m = ("exc", "") if f[0] == "err" else ("ok", None if f[1] == "none" else (unhx(f[1]), unhx(f[2])))
+                        ok = ok and ((m[0] == "exc") == (g[0] == "exc")) and (m[0] == "exc" or m == g)
+            if ok:
+                ck.traces_validated += 1
+                stats["histories_validated_against_model"] += 1
+            else:
+                ck.disagree(f"lookup history on one {'SSHConfig' if kind == 'cfg' else 'SSHKnownHosts'} object vs model "
+                            f"({'cfgHistory' if kind == 'cfg' else 'khHistory'})", case, f"impl={got} model={mout[idx]}")
         # the Lean specification (Spec.lookup) and the Python oracle's specification are two independent renderings
         for j, (bl, nm) in enumerate(spec_pend):
             m = dec_model(mout[n_main + j])
@@ -866,6 +1005,24 @@ def replay(path):
         if "name" not in v:
             print("no failing input stored (broken proof / translator / parser differential):", json.dumps(r, indent=1)[:2000])
             return 1
+        if v.get("kind") == "history":
+            translate.translate(PID)
+            from gen import c16 as g
+            if not g.DATA:
+                g.generate()
+            if "known_hosts" in v:
+                p = tmp.write(v["known_hosts"])
+                got = kh_history_real(p, v["history"])
+                fresh = [real_kh(p, n) for n in v["history"]]
+                print("known_hosts:", repr(v["known_hosts"]))
+            else:
+                p = tmp.write(v["text"])
+                got = cfg_history_real(p, v["history"], g.DATA["host_attrs"], via_factory=v.get("via_factory", False))
+                fresh = [real_lookup(p, n, g.DATA["host_attrs"]) for n in v["history"]]
+                print("config:\n" + v["text"])
+            for n, a, b in zip(v["history"], got, fresh):
+                print(f"  lookup({n!r}) on the one object -> {a}\n  {' ' * len(repr(n))}    on a fresh object -> {b}")
+            return 0 if got == fresh else 1
         if v.get("kind") == "kh" or "known_hosts" in v:
             p = tmp.write(v["known_hosts"])
             got = real_kh(p, v["name"])
